@@ -4,6 +4,8 @@ use crate::refjson::*;
 use crate::{fnv, from_real, to_real, Report, Rng};
 use json_syntax::{Kind, KindSet, Parse, Print, Value};
 
+fn idx_of(o: &json_syntax::Object, k: &str) -> Vec<usize> { o.entries().iter().enumerate().filter(|(_, e)| e.key.as_str() == k).map(|(i, _)| i).collect() }
+
 pub fn run(prop: &str, thorough: bool, seed: u64, rep: &mut Report) {
     match prop {
         "C09" | "C10" => canonical(prop, thorough, seed, rep),
@@ -222,6 +224,13 @@ fn navigation(thorough: bool, seed: u64, rep: &mut Report) {
                     let got2: Vec<usize> = o.get_mapped(&cm, *i, k).map(|m| m.offset).collect();
                     let got3: Vec<(usize, usize)> = o.get_mapped_with_index(&cm, *i, k).map(|(ix, m)| (ix, m.offset)).collect();
                     let got4: Vec<(usize, usize)> = o.get_mapped_entries_with_index(&cm, *i, k).map(|(ix, m)| (ix, m.offset)).collect();
+                    // ... and the key / value offsets inside the indexed entries, and the unique variants in full
+                    let got5: Vec<(usize, usize, usize)> = o.get_mapped_entries_with_index(&cm, *i, k).map(|(_, m)| (m.offset, m.value.key.offset, m.value.value.offset)).collect();
+                    if got5 != want { fail(rep, "key-based mapped lookups", format!("object at {} key {:?} via get_mapped_entries_with_index (entry, key, value offsets)", i, k)); }
+                    match (o.get_unique_mapped_entry(&cm, *i, k), want.len()) { (Ok(Some(m)), 1) => if (m.offset, m.value.key.offset, m.value.value.offset) != want[0] { fail(rep, "get_unique_mapped_entry", format!("{:?} (entry, key, value offsets)", k)); }, (Err(d), n) if n > 1 => if (d.0.offset, d.0.value.key.offset, d.0.value.value.offset) != want[0] || (d.1.offset, d.1.value.key.offset, d.1.value.value.offset) != want[1] { fail(rep, "get_unique_mapped_entry", format!("{:?} duplicate pair", k)); }, _ => {} }
+                    match (o.get_unique_mapped_entry_with_index(&cm, *i, k), want.len()) { (Ok(Some((ix, m))), 1) => if ix != idx_of(o, k)[0] || (m.offset, m.value.key.offset, m.value.value.offset) != want[0] { fail(rep, "get_unique_mapped_entry_with_index", format!("{:?}", k)); }, (Err(d), n) if n > 1 => if (d.0 .1.offset, d.0 .1.value.key.offset, d.0 .1.value.value.offset) != want[0] || (d.1 .1.offset, d.1 .1.value.key.offset, d.1 .1.value.value.offset) != want[1] || d.0 .0 != idx_of(o, k)[0] || d.1 .0 != idx_of(o, k)[1] { fail(rep, "get_unique_mapped_entry_with_index", format!("{:?} duplicate pair", k)); }, (Ok(None), 0) => {}, _ => fail(rep, "get_unique_mapped_entry_with_index verdict", format!("{:?}", k)) }
+                    match (o.get_unique_mapped_with_index(&cm, *i, k), want.len()) { (Ok(Some((ix, m))), 1) => if ix != idx_of(o, k)[0] || m.offset != want[0].2 { fail(rep, "get_unique_mapped_with_index", format!("{:?}", k)); }, (Err(d), n) if n > 1 => if d.0 .1.offset != want[0].2 || d.1 .1.offset != want[1].2 || d.0 .0 != idx_of(o, k)[0] || d.1 .0 != idx_of(o, k)[1] { fail(rep, "get_unique_mapped_with_index", format!("{:?} duplicate pair", k)); }, (Ok(None), 0) => {}, _ => fail(rep, "get_unique_mapped_with_index verdict", format!("{:?}", k)) }
+                    match (o.get_unique_mapped(&cm, *i, k), want.len()) { (Err(d), n) if n > 1 => if d.0.offset != want[0].2 || d.1.offset != want[1].2 { fail(rep, "get_unique_mapped", format!("{:?} duplicate pair", k)); }, _ => {} }
                     let idx: Vec<usize> = o.indexes_of(k).collect();
                     if got != want || got2 != want.iter().map(|w| w.2).collect::<Vec<_>>() || got3 != idx.iter().cloned().zip(want.iter().map(|w| w.2)).collect::<Vec<_>>() || got4 != idx.iter().cloned().zip(want.iter().map(|w| w.0)).collect::<Vec<_>>() { fail(rep, "key-based mapped lookups", format!("object at {} key {:?}", i, k)); }
                     match (o.get_unique_mapped(&cm, *i, k), want.len()) { (Ok(Some(m)), 1) => if m.offset != want[0].2 { fail(rep, "get_unique_mapped", format!("{:?}", k)); }, (Err(_), n) if n > 1 => {}, (Ok(None), 0) => {}, _ => fail(rep, "get_unique_mapped verdict", format!("{:?}", k)) }
